@@ -190,6 +190,9 @@ func c31Random(c *Ctx) error {
 		if c.Rng.Intn(8) == 0 {
 			n = 12 + c.Rng.Intn(14) // merged values cross the value threshold (32): value log
 		}
+		if c.Rng.Intn(9) == 0 {
+			n = 32 + c.Rng.Intn(8) // the operand itself goes to the value log: its LSM entry (a value pointer) must keep the merge bit
+		}
 		if c.Rng.Intn(25) == 0 {
 			n = 0
 		}
